@@ -53,20 +53,18 @@ func (m *Machine) goPanic(msg string) {
 	panic(targetPanic{v: iface{t: m.runtimeErrorType(), v: msg}, desc: msg, stack: m.stackString()})
 }
 
-var rtErrType types.Type
-
 func (m *Machine) runtimeErrorType() types.Type {
-	if rtErrType == nil {
+	if m.rtErrType == nil {
 		if p := m.prog.ImportedPackage("runtime"); p != nil {
 			if t := p.Type("errorString"); t != nil {
-				rtErrType = t.Object().Type()
+				m.rtErrType = t.Object().Type()
 			}
 		}
-		if rtErrType == nil {
-			rtErrType = types.Typ[types.String]
+		if m.rtErrType == nil {
+			m.rtErrType = types.Typ[types.String]
 		}
 	}
-	return rtErrType
+	return m.rtErrType
 }
 
 func (fr *frame) runDefer(d *deferred) {
